@@ -255,8 +255,10 @@ func (r Relation) Join(r2 Relation, keys, leftOutput, rightOutput NamesSlice) Se
 			case ArrayItemAttr, BytesByteAttr, DictValueAttr, StringCharAttr:
 				sb := NewSetBuilder()
 				for i := rows.Range(); i.Next(); {
-					values := i.Values().project(r.p)
-					sb.Add(NewTuple(NewAttr("@", values.get(at)), NewAttr(attrs[val], values.get(val))))
+					// Joined rows are laid out as leftOutput followed by rightOutput, i.e.
+					// positionally aligned with attrs; r.p describes r's own rows, not these.
+					values := i.Values()
+					sb.Add(NewTuple(NewAttr("@", values[at]), NewAttr(attrs[val], values[val])))
 				}
 				set, err := sb.Finish()
 				if err != nil {
